@@ -400,6 +400,11 @@ func (k *c15) genSoil(r *vh.Rng, route string, n int) []proj.Horizon {
 		if strings.HasPrefix(route, "ptf") {
 			h.PV = r.Range(35, 70) // the pore volume the pedotransfer routes still read from the soil file
 		}
+		if !explicit && !strings.HasPrefix(route, "ptf") && (low*7+nh+i)%3 == 0 {
+			// texture-table route with a measured pore volume in the file (as the shipped soil 075a: 0,0,38): without field
+			// capacity the table supplies all three values (derived without touching the random stream)
+			h.PV = 30 + (low*11+i*5)%31
+		}
 		// a triple of the stated triangle (whole percents)
 		h.Clay = r.Range(5, 90)
 		h.Sand = r.Range(5, minIHy(85, 95-h.Clay))
